@@ -209,6 +209,11 @@ def wdefine(name, variant):
 
     def step(h, x=0):
         trace.enter(name, variant)
+        # the handle may arrive nested inside a container argument
+        if isinstance(h, (list, tuple)):
+            return h[0]
+        if isinstance(h, dict):
+            return h["k"]
         return h
     step.__name__ = name
     step.__module__ = __name__
@@ -221,6 +226,10 @@ def wexpr(shape):
     b = W["sb"](a)
     if shape == "chain":
         return W["sc"](b)
+    if shape == "chain_nested":
+        # the same chain with every handle passed inside a container argument (list, dict, tuple in a keyword)
+        b2 = W["sb"]([a])
+        return W["sc"](h={"k": b2}, x=(1, 2))
     if shape == "forkmerge":
         return W["sc"](merge_handles([W["sb"](a, 1), W["sb"](a, 2)]))
     if shape == "mergeend":
@@ -235,7 +244,7 @@ def shard_workflow(ctx, n, sub):
     for i in range(n):
         for nm in order:
             wdefine(nm, 0)
-        shape = rnd.choice(["chain", "forkmerge", "two", "mergeend", "mergeend"])
+        shape = rnd.choice(["chain", "forkmerge", "two", "mergeend", "mergeend", "chain_nested", "chain_nested"])
         backend = engine.new_backend()
         log = []
         past = {nm: {0} for nm in order}
@@ -246,6 +255,9 @@ def shard_workflow(ctx, n, sub):
                 if r < 0.5:
                     changed = rnd.choice(order)
                     v = rnd.choice([x for x in range(3) if x != WSTATE[changed]])
+                    back = [(nm, x) for nm in order for x in past[nm] if x != WSTATE[nm]]
+                    if back and rnd.random() < 0.5:
+                        changed, v = rnd.choice(back)      # revert some step to a body it had before
                     past[changed].add(WSTATE[changed])
                     wdefine(changed, v)
                     step_kind = "revert" if v in past[changed] else "edit"
@@ -305,7 +317,7 @@ def main(ctx):
                    [{"length": 3, "start": s, "step": 3, "small": True} for s in range(3)] +
                    [{"length": 4, "start": s, "step": 12, "small": True} for s in range(2)], timeout=600)
         ctx.shards("shard_rand", [{"n": 120, "sub": s} for s in range(5)], timeout=600)
-        ctx.shards("shard_workflow", [{"n": 5, "sub": s} for s in range(4)], timeout=600)
+        ctx.shards("shard_workflow", [{"n": 6, "sub": s} for s in range(12)], timeout=600)
         ctx.extra["exhaustive_lengths"] = "<=2 full alphabet, 3 small alphabet, 4 small alphabet sampled 1/6"
     else:
         ctx.shards("shard_exh", [{"length": 1, "start": 0, "step": 1, "small": False},
@@ -319,7 +331,7 @@ def main(ctx):
     ctx.require("validity_comparisons", 20000)
     ctx.require("histories_with_rollback_then_readvance", 100)
     ctx.require("workflow_reexecutions_checked", 20)
-    ctx.require("workflow_reverts_checked", 3)
+    ctx.require("workflow_reverts_checked", 10)
 
 
 def replay(ctx, witness):
